@@ -9,15 +9,17 @@ package dawn
 // one computed ALONE, FIRST THING IN A FRESH PROCESS.
 //
 //	project        good targets g_* (recursion sharing a builtin, mutual recursion, aliased lists, defaults, closures,
-//	               cyclic data, a 1203-element list, modules, target references: every one has back-references in its
-//	               pickle), fault targets f_* and kind targets b_*.
+//	               cyclic data, a 1203-element list, modules, target references, two targets made from same-named closures
+//	               of one factory: every one but g_plain has back-references in its pickle), fault targets f_* and kind
+//	               targets b_*.
 //	fault sources  (a) FUSE_i: values the embedding program predeclares (LoadOptions.Builtins, how cmd/dawn passes os/sh/
 //	               json) whose j-th attribute read fails when the harness arms (i, j): the encoder stops after having
 //	               written a prefix of the pickle; i selects WHERE in the environment (default, captured variable,
 //	               predeclared, nested in a global list, inside a helper reached late), j how much of the value is out.
-//	               (b) OPAQUE: a predeclared value of a type nobody can pickle.  (c) BADMAP: a predeclared mapping with an
-//	               unhashable key: encoding succeeds, DECODING stops early.  (d) every value of BUILD text whose
-//	               fingerprint fails in the reference run (see kinds).
+//	               (b) OPAQUE: a predeclared value of a type nobody can pickle.  (c) every value of BUILD text whose
+//	               fingerprint fails in the reference run (see kinds).  (No legitimate environment fails to DECODE: the
+//	               decoder has no error for a pickle its own encoder wrote -- BADMAP, a predeclared mapping with an unhashable
+//	               key, is in the stamp and merely absent from the decoded environment; f_badmap is an ordinary victim.)
 //	kinds          b_*: the value kinds an expression of BUILD text can yield that are neither data, callables nor
 //	               attribute holders: the string / bytes iterables.  Their targets load, so they must fingerprint.
 //	reference      one fresh process per target: stamp, functionEnv (sharing-aware dump), upToDate against the records of
@@ -100,7 +102,7 @@ func (c08Opaque) Freeze()               {}
 func (c08Opaque) Truth() starlark.Bool  { return starlark.True }
 func (c08Opaque) Hash() (uint32, error) { return 1, nil }
 
-// c08BadMap pickles as a dict (it is an IterableMapping) but its second key is a list: the decoder cannot rebuild it.
+// c08BadMap pickles as a dict (it is an IterableMapping) but its second key is a list: the decoder drops that entry.
 type c08BadMap struct{}
 
 func (*c08BadMap) String() string        { return "<badmap>" }
@@ -164,6 +166,8 @@ func c08HistText(seed int64, edited bool) string {
 	b.WriteString("@target()\ndef g_clo():\n    print(CLO(), helper, str, len)\n\n")
 	b.WriteString("@target()\ndef g_mod():\n    print(os, sh, json, host, package, path, label, len, str, SHARED, helper)\n\n")
 	b.WriteString("@target()\ndef g_tref():\n    print(g_rec, g_plain, helper, g_rec)\n\n")
+	// two targets whose functions have the same name and the same code (closures of one factory)
+	fmt.Fprintf(&b, "def mkt(c):\n    def same(self, d=[SHARED, ALIAS]):\n        print(c, d, len(c), helper)\n    return same\n\ntarget(name=\"g_same1\", function=mkt([SHARED, %d]))\ntarget(name=\"g_same2\", function=mkt([ALIAS, %d, SHARED]))\n\n", r(), r())
 	// fault targets: where in the environment the fuse sits
 	b.WriteString("@target()\ndef f_default(self, d=FUSE_0, e=SHARED):\n    print(\"f\", SHARED, d, e)\n    helper(1)\n\n")
 	b.WriteString("FCLO = mk(FUSE_1)\n\n@target()\ndef f_captured():\n    print(FCLO(), SHARED, len)\n\n")
@@ -329,20 +333,24 @@ func TestVerifC08HistRef(t *testing.T) {
 	}
 	root := os.Getenv("VERIF_ROOT")
 	os.Setenv("HOME", filepath.Join(root, ".home"))
-	name := os.Getenv("VERIF_C08_HIST_TARGET")
-	res := "LOADERR\t\t\t"
-	if _, fs, err := c08HistLoad(root); err != nil {
-		res += strings.ReplaceAll(err.Error(), "\n", " | ")
-	} else if f := fs[name]; f == nil {
-		res += "no such target"
-	} else {
-		var o c08HistObs
-		c08HistEnv(f, &o) // the computation the engine does first
-		c08HistStamp(f, &o)
-		c08HistUp(f, &o)
-		res = strings.Join([]string{o.stamp, o.env, o.up, strings.ReplaceAll(o.errs, "\n", " | ")}, "\t")
+	var res []string
+	_, fs, lerr := c08HistLoad(root)
+	// (a list of targets: only the first is computed first thing; used for the kind targets, whose reference says whether
+	// they can be fingerprinted at all)
+	for _, name := range strings.Split(os.Getenv("VERIF_C08_HIST_TARGET"), ",") {
+		if lerr != nil {
+			res = append(res, name+"\tLOADERR\t\t\t"+strings.ReplaceAll(lerr.Error(), "\n", " | "))
+		} else if f := fs[name]; f == nil {
+			res = append(res, name+"\tLOADERR\t\t\tno such target")
+		} else {
+			var o c08HistObs
+			c08HistEnv(f, &o) // the computation the engine does first
+			c08HistStamp(f, &o)
+			c08HistUp(f, &o)
+			res = append(res, strings.Join([]string{name, o.stamp, o.env, o.up, strings.ReplaceAll(o.errs, "\n", " | ")}, "\t"))
+		}
 	}
-	os.WriteFile(os.Getenv("VERIF_REPORT"), []byte(res+"\n"), 0644)
+	os.WriteFile(os.Getenv("VERIF_REPORT"), []byte(strings.Join(res, "\n")+"\n"), 0644)
 }
 
 type c08HistFault struct {
@@ -403,10 +411,20 @@ func TestVerifC08Hist(t *testing.T) {
 	// ---- reference: one fresh process per target
 	ref := map[string]*c08HistObs{}
 	refPath := filepath.Join(root, ".histref.tsv")
+	var groups [][]string
+	var kinds []string
 	for _, n := range names {
+		if strings.HasPrefix(n, "b_") {
+			kinds = append(kinds, n)
+		} else {
+			groups = append(groups, []string{n})
+		}
+	}
+	groups = append(groups, kinds)
+	for _, grp := range groups {
 		os.Remove(refPath)
 		cmd := exec.Command(self, "-test.run", "^TestVerifC08HistRef$", "-test.count=1")
-		cmd.Env = append(os.Environ(), "VERIF_C08_CHILD=histref", "VERIF_ROOT="+root, "VERIF_REPORT="+refPath, "VERIF_C08_HIST_TARGET="+n)
+		cmd.Env = append(os.Environ(), "VERIF_C08_CHILD=histref", "VERIF_ROOT="+root, "VERIF_REPORT="+refPath, "VERIF_C08_HIST_TARGET="+strings.Join(grp, ","))
 		done := make(chan error, 1)
 		var out []byte
 		go func() {
@@ -423,16 +441,25 @@ func TestVerifC08Hist(t *testing.T) {
 			died = "hung"
 		}
 		b, _ := os.ReadFile(refPath)
-		f := strings.Split(strings.TrimRight(string(b), "\n"), "\t")
-		if len(f) < 4 || f[0] == "LOADERR" {
-			tail := string(out)
-			if len(tail) > 300 {
-				tail = tail[:300]
+		for _, l := range strings.Split(strings.TrimRight(string(b), "\n"), "\n") {
+			if f := strings.Split(l, "\t"); len(f) >= 5 && f[1] != "LOADERR" {
+				ref[f[0]] = &c08HistObs{stamp: f[1], env: f[2], up: f[3], errs: f[4]}
 			}
-			line("ORACLE", "terminates", "history/"+n, "fingerprinting //:"+n+" alone in a fresh process did not finish: "+died+" "+strings.Join(f, " ")+" "+tail)
-			continue
 		}
-		ref[n] = &c08HistObs{stamp: f[0], env: f[1], up: f[2], errs: f[3]}
+		for _, n := range grp {
+			if ref[n] == nil {
+				tail := string(out)
+				if i := strings.Index(tail, "fatal error"); i >= 0 {
+					tail = tail[i:]
+				} else if i := strings.Index(tail, "panic:"); i >= 0 {
+					tail = tail[i:]
+				}
+				if len(tail) > 300 {
+					tail = tail[:300]
+				}
+				line("ORACLE", "terminates", "history/"+n, "fingerprinting //:"+n+" alone in a fresh process did not finish: "+died+" "+strings.ReplaceAll(string(b), "\t", " ")+" "+tail)
+			}
+		}
 	}
 	if len(ref) != len(names) {
 		return
@@ -454,7 +481,7 @@ func TestVerifC08Hist(t *testing.T) {
 	}
 	// good targets and disarmed fault targets fingerprint without error
 	for _, n := range names {
-		if strings.HasPrefix(n, "b_") || n == "f_opaque" || n == "f_badmap" {
+		if strings.HasPrefix(n, "b_") || n == "f_opaque" {
 			continue
 		}
 		if o := ref[n]; failing(o) || o.env == "NIL" || strings.Contains(o.stamp+o.env+o.up, "PANIC") || o.up == "ERR" {
@@ -471,7 +498,7 @@ func TestVerifC08Hist(t *testing.T) {
 		}
 	}
 	for _, n := range names {
-		if !good(n) && !strings.HasPrefix(n, "f_") && failing(ref[n]) || n == "f_opaque" || n == "f_badmap" {
+		if !good(n) && !strings.HasPrefix(n, "f_") && failing(ref[n]) || n == "f_opaque" {
 			faults = append(faults, c08HistFault{n, -1, "//:" + n})
 		}
 	}
@@ -580,7 +607,7 @@ func TestVerifC08Hist(t *testing.T) {
 	order := append([]string{}, names...)
 	rng.Shuffle(len(order), func(i, j int) { order[i], order[j] = order[j], order[i] })
 	for i, n := range order {
-		ok := check(n, all(fs[n]), fmt.Sprintf("H0: %d other targets fingerprinted in the order %s", i, strings.Join(order[:i], " ")))
+		ok := check(n, all(fs[n]), fmt.Sprintf("H0: the previous text built and this text loaded by the same process, %d other targets fingerprinted in the order [%s]", i, strings.Join(order[:i], " ")))
 		line("case", "history/H0", n, "true", strconv.FormatBool(ok))
 	}
 	var goods []string
@@ -595,6 +622,7 @@ func TestVerifC08Hist(t *testing.T) {
 		var victims []string
 		victims = append(victims, goods...)
 		victims = append(victims, fuseTargets...)
+		victims = append(victims, "f_badmap")
 		okAll := true
 		for _, n := range victims {
 			h := "H1: failed fingerprint of " + ft.desc
